@@ -25,9 +25,10 @@ ldb_waiter_t *g_me;            /* the waiter of the call under test (set by ldb_
 ldb_waiter_t g_a1, g_f1, g_f2; /* a writer queued ahead; two writers that queue up behind us       */
 int g_nf;                      /* how many writers queue up behind us while we wait (0..2)          */
 int g_held;                    /* DB mutex held by this thread                                       */
-int g_locks, g_unlocks;
+unsigned g_locks, g_unlocks;
 uint64_t g_hwm;                /* highest sequence number whose entry has been inserted in mem       */
 int g_waits;                   /* cond_wait calls on our own cv                                      */
+int g_room_waits;              /* waits for background work inside make_room                         */
 /* signals */
 int g_sig_a1, g_sig_f1, g_sig_f2, g_sig_me, g_sig_other;
 /* log / batch model */
@@ -90,7 +91,7 @@ struct ldb_wfile_s { int dummy; };
 ldb_wfile_t g_logfile; ldb_writer_t g_logw;
 
 int ldb_writer_add_record(ldb_writer_t *lw, const ldb_slice_t *slice) {
-  __CPROVER_assert(lw == g_db->log && lw == &g_logw, "the record goes to the DB's current log");
+  __CPROVER_assert(lw == g_db->log, "the record goes to the DB's current log");
   __CPROVER_assert(g_log_appends == 0, "one log record per write group");
   __CPROVER_assert(g_me != NULL && g_db->writers.head == g_me, "only the head of the writer queue logs");
   g_log_appends++; g_log_data = slice->data; g_log_size = slice->size;
@@ -100,7 +101,7 @@ int ldb_writer_add_record(ldb_writer_t *lw, const ldb_slice_t *slice) {
 }
 int ldb_wfile_sync(ldb_wfile_t *file) {
   int rc = nondet_int();
-  __CPROVER_assert(file == g_db->logfile && file == &g_logfile, "sync goes to the DB's current log file");
+  __CPROVER_assert(file == g_db->logfile, "sync goes to the DB's current log file");
   __CPROVER_assert(g_log_appends == 1 && !g_log_failed, "log sync comes after the successful append of this group");
   __CPROVER_assert(g_inserts == 0, "log sync comes before the memtable insert");
   g_syncs++;
@@ -133,9 +134,11 @@ void ldb_cond_signal(ldb_cond_t *cv) {
   if (w == &g_a1) g_sig_a1++; else if (w == &g_f1) g_sig_f1++; else if (w == &g_f2) g_sig_f2++; else if (w == g_me) g_sig_me++; else g_sig_other++;
 }
 void ldb_cond_broadcast(ldb_cond_t *cv) { }
+static void wait_for_background(void);
 void ldb_cond_wait(ldb_cond_t *cv, ldb_mutex_t *m) {
   int what;
   __CPROVER_assert(m == &g_db->mutex && g_held, "wait: DB mutex held");
+  if (cv == &g_db->background_work_finished_signal) { wait_for_background(); return; }
   __CPROVER_assert(WAITER_OF(cv) == g_me, "a writer waits on its own condition variable");
   __CPROVER_assert(!g_me->done && g_db->writers.head != g_me, "a writer blocks only while it is neither completed nor at the head of the queue");
   monitor_invariant("wait");
@@ -148,39 +151,159 @@ void ldb_cond_wait(ldb_cond_t *cv, ldb_mutex_t *m) {
     uint64_t adv = nondet_u64();
     __CPROVER_assume(adv < ((uint64_t)1 << 40) && g_db->versions->last_sequence < ((uint64_t)1 << 56) - adv);
     g_db->versions->last_sequence += adv; g_hwm = g_db->versions->last_sequence > g_hwm ? g_db->versions->last_sequence : g_hwm;
-    if (nondet_int()) g_db->bg_error = nondet_int();
+    if (g_db->bg_error == LDB_OK && nondet_int()) g_db->bg_error = nondet_int();   /* errors latch, they never clear */
     if (what > 0) {
       /* its group included us: we are completed and dequeued */
       g_me->status = nondet_int(); g_me->done = 1;
       g_db->writers.head = NULL; g_db->writers.tail = NULL; g_db->writers.length = 0;
+      g_me->next = NULL;
     } else {
       /* it finished alone: we are the new head */
-      g_db->writers.head = g_me; g_db->writers.tail = g_me; g_db->writers.length = 1;
+      g_db->writers.head = g_me; g_db->writers.tail = g_me; g_db->writers.length = 1 + g_nf;
     }
   }
   g_held = 1;
 }
 
 /* ------------------------------------------------ make_room_for_write */
+int g_bg_sched_calls;          /* ldb_pool_schedule calls                                              */
+uint64_t g_next_file, g_alloc_number; int g_allocs, g_reuses;
+int g_create_calls, g_create_ok, g_close_calls2, g_close_failed, g_wdestroy, g_fdestroy, g_wcreate;
+ldb_memtable_t *g_old_mem; ldb_memtable_t g_new_mem_obj; int g_mem_creates, g_mem_refs;
+size_t g_mem_usage;
+ldb_wfile_t g_old_logfile; ldb_writer_t g_old_logw;
+
+int g_l0_files;                /* number of level-0 files (ldb_versions_files(.., 0))                 */
+int g_needs_compaction;        /* ldb_versions_needs_compaction()                                      */
+/* ghost state written by the environment models that make_room can reach */
+#define ROOM_GHOST g_room_waits, g_held, g_locks, g_unlocks, g_l0_files, g_needs_compaction, g_bg_sched_calls, g_next_file, g_alloc_number, g_allocs, g_reuses, \
+  g_create_calls, g_create_ok, g_close_calls2, g_close_failed, g_wdestroy, g_fdestroy, g_wcreate, g_mem_creates, g_mem_refs
+#define SHUTTING_DOWN(db) (*(int *)&(db)->shutting_down != 0)
+/* ... and a full level 0 (writes stop at 12 files) always has a compaction scheduled */
+#define I_DB_C0(db) (!(g_l0_files >= LDB_L0_STOP_WRITES_TRIGGER && (db)->bg_error == LDB_OK) || (db)->background_compaction_scheduled)
+#define I_DB_C(db) (!((db)->imm != NULL && (db)->bg_error == LDB_OK && !SHUTTING_DOWN(db)) || (db)->background_compaction_scheduled)
+
 /* queue after the leader waited for room: up to two writers queued up behind it */
 int c_make_room_for_write(ldb_t *db, int force)
 __CPROVER_requires(db == g_db && g_held)
 /* the caller is the head of the writer queue (a spuriously woken writer must not get here) */
 __CPROVER_requires(g_me != NULL && db->writers.head == g_me && !g_me->done)
+/* I_db(c): pending background work is scheduled (so whoever waits for it will be woken) */
+__CPROVER_requires(I_DB_C(db) && I_DB_C0(db))
+/* no write is issued once close has begun; the DB always has a current log */
+__CPROVER_requires(!SHUTTING_DOWN(db) && db->log != NULL && db->logfile != NULL && db->mem != NULL)
 __CPROVER_assigns(db->mem, db->imm, db->log, db->logfile, db->logfile_number, db->has_imm, db->bg_error, db->background_compaction_scheduled,
-                  db->writers.tail, db->writers.length)
-__CPROVER_ensures(g_held)
+                  ROOM_GHOST)
+__CPROVER_ensures(g_held && I_DB_C(db) && I_DB_C0(db) && !SHUTTING_DOWN(db) && db->log != NULL && db->logfile != NULL && db->mem != NULL && g_locks - __CPROVER_old(g_locks) == g_unlocks - __CPROVER_old(g_unlocks))
 /* a latched background error is returned: nothing more is written after a failed log or MANIFEST write */
 __CPROVER_ensures(__CPROVER_old(db->bg_error) != LDB_OK ==> __CPROVER_return_value != LDB_OK)
-__CPROVER_ensures(__CPROVER_return_value == LDB_OK ==> (db->bg_error == LDB_OK && db->mem != NULL && db->log == &g_logw && db->logfile == &g_logfile))
-/* queue after the leader waited for room: we are still the head, g_nf (0..2) writers queued up behind us */
-__CPROVER_ensures(db->writers.head == g_me && db->writers.length == 1 + g_nf)
-__CPROVER_ensures(db->writers.tail == (g_nf == 0 ? g_me : g_nf == 1 ? &g_f1 : &g_f2))
+__CPROVER_ensures(__CPROVER_return_value == LDB_OK ==> db->bg_error == LDB_OK)
 ;
 
-/* ------------------------------------------------------------- harness */
 static ldb_versions_t g_versions;
 static ldb_writeopt_t g_wopt;
+
+/* ---------------------------------------------- stubs used by make_room */
+int ldb_versions_files(const ldb_versions_t *vset, int level) { __CPROVER_assert(level == 0, "level-0 file count"); return g_l0_files; }
+int ldb_versions_needs_compaction(const ldb_versions_t *vset) { return g_needs_compaction; }
+size_t ldb_memtable_usage(const ldb_memtable_t *mt) { return mt == &g_new_mem_obj ? 0 : g_mem_usage; /* a fresh memtable is empty */ }
+void ldb_sleep_usec(int64_t usec) { __CPROVER_assert(!g_held, "sleeping writers do not hold the mutex"); }
+void ldb_log(ldb_logger_t *logger, const char *fmt, ...) { }
+void ldb_pool_schedule(ldb_pool_t *pool, ldb_work_f *func, void *arg) { __CPROVER_assert(g_held && arg == g_db, "background work is scheduled under the mutex for this DB"); g_bg_sched_calls++; }
+uint64_t ldb_versions_new_file_number(ldb_versions_t *vset) { g_allocs++; g_alloc_number = g_next_file; return g_next_file++; }
+void ldb_versions_reuse_file_number(ldb_versions_t *vset, uint64_t n) { g_reuses++; __CPROVER_assert(n == g_alloc_number, "only the number just allocated is given back"); if (g_next_file == n + 1) g_next_file = n; }
+int ldb_log_filename(char *buf, size_t size, const char *dbname, uint64_t num) { __CPROVER_assert(num == g_alloc_number, "new log file is named after the freshly allocated number"); return 1; }
+int ldb_truncfile_create(const char *filename, ldb_wfile_t **file) {
+  int rc = nondet_int();
+  g_create_calls++;
+  if (rc != LDB_OK) return rc;
+  g_create_ok++; *file = &g_logfile;
+  return LDB_OK;
+}
+void ldb_writer_destroy(ldb_writer_t *lw) { __CPROVER_assert(g_create_ok == 1, "log switch: the old log writer is dropped only after the new log file exists"); __CPROVER_assert(lw == &g_old_logw, "old writer"); g_wdestroy++; }
+int ldb_wfile_close(ldb_wfile_t *f) {
+  int rc = nondet_int();
+  __CPROVER_assert(g_create_ok == 1, "log switch: the old log file is closed only after the new log file exists");
+  __CPROVER_assert(f == &g_old_logfile, "closes the old log file");
+  g_close_calls2++;
+  if (rc != LDB_OK) g_close_failed = 1;
+  return rc;
+}
+void ldb_wfile_destroy(ldb_wfile_t *f) { __CPROVER_assert(f == &g_old_logfile && g_close_calls2 == 1, "old log file is closed before it is destroyed"); g_fdestroy++; }
+ldb_writer_t *ldb_writer_create(ldb_wfile_t *file, uint64_t length) {
+  __CPROVER_assert(file == &g_logfile && length == 0, "new log writer starts at offset 0 of the new (truncated) file");
+  g_wcreate++; return &g_logw;
+}
+ldb_memtable_t *ldb_memtable_create(const ldb_comparator_t *cmp) { __CPROVER_assert(cmp == &g_db->internal_comparator, "memtable uses the internal comparator"); g_mem_creates++; return &g_new_mem_obj; }
+void ldb_memtable_ref(ldb_memtable_t *mt) { g_mem_refs++; }
+
+/* the leader waits for background work: the background thread runs */
+static void wait_for_background(void) {
+  __CPROVER_assert(g_db->imm != NULL || g_l0_files >= LDB_L0_STOP_WRITES_TRIGGER, "a writer waits for background work only while the previous memtable is still being flushed or level 0 is full");
+  __CPROVER_assert(g_db->bg_error == LDB_OK, "a writer does not wait once a background error is latched");
+  __CPROVER_assert(g_db->background_compaction_scheduled, "W3: whoever waits for the background signal has a scheduled background call (no lost wake-up)");
+  monitor_invariant("wait-bg");
+  g_held = 0; g_room_waits++;
+  /* background call: flushes imm and/or compacts, or fails; it reschedules itself if work remains */
+  if (nondet_int()) { g_db->bg_error = nondet_int(); __CPROVER_assume(g_db->bg_error != LDB_OK); }
+  else if (g_room_waits >= 2 || nondet_int()) { g_db->imm = NULL; *(int *)&g_db->has_imm = 0; g_l0_files = nondet_int(); __CPROVER_assume(g_l0_files >= 0 && g_l0_files < LDB_L0_STOP_WRITES_TRIGGER); }
+  g_needs_compaction = nondet_int() ? 1 : 0;
+  g_db->background_compaction_scheduled = (g_db->bg_error == LDB_OK && (g_db->imm != NULL || g_needs_compaction)) ? 1 : nondet_int() ? 1 : 0;
+  __CPROVER_assume(g_l0_files < LDB_L0_STOP_WRITES_TRIGGER || g_needs_compaction);
+  g_held = 1;
+}
+
+void h_room(void) {
+  ldb_t *db = malloc(sizeof(ldb_t));
+  ldb_waiter_t me;
+  int force = nondet_int() ? 1 : 0;
+  int bg0, rc;
+  ldb_memtable_t *mem0; ldb_memtable_t *imm0; uint64_t lognum0;
+  __CPROVER_assume(db != NULL);
+  g_db = db; g_me = &me; me.done = 0; me.next = NULL;
+  db->versions = &g_versions;
+  db->writers.head = &me; db->writers.tail = &me; db->writers.length = 1;
+  db->log = &g_old_logw; db->logfile = &g_old_logfile;
+  __CPROVER_assume(db->mem != NULL && db->mem != &g_new_mem_obj);
+  __CPROVER_assume(g_l0_files >= 0 && g_l0_files <= 64 && (g_needs_compaction == 0 || g_needs_compaction == 1));
+  __CPROVER_assume(g_l0_files < LDB_L0_SLOWDOWN_WRITES_TRIGGER / 2 || g_needs_compaction); /* level 0 >= 4 files triggers compaction */
+  __CPROVER_assume(I_DB_C(db));
+  __CPROVER_assume(I_DB_C0(db) && !SHUTTING_DOWN(db));
+  __CPROVER_assume(g_next_file < ((uint64_t)1 << 60));
+  g_held = 1; g_locks = 1; g_unlocks = 0; g_room_waits = 0; g_seq_assigned = 0; g_inserts = 0; g_log_failed = 0; g_sync_failed = 0;
+  g_bg_sched_calls = 0; g_allocs = g_reuses = 0; g_create_calls = g_create_ok = g_close_calls2 = g_close_failed = g_wdestroy = g_fdestroy = g_wcreate = 0;
+  g_mem_creates = g_mem_refs = 0;
+  bg0 = db->bg_error; mem0 = db->mem; imm0 = db->imm; lognum0 = db->logfile_number;
+  {
+    uint64_t next0 = g_next_file;
+    int had_log = db->log != NULL, had_file = db->logfile != NULL;
+    rc = ldb_make_room_for_write(db, force);
+    CHECK(g_held && g_locks == g_unlocks + 1, "make_room: returns with the mutex held, lock/unlock balanced");
+    CHECK(db->writers.head == &me && db->writers.length == 1, "make_room: the writer queue is not touched");
+    if (bg0 != LDB_OK) CHECK(rc == bg0 && g_create_calls == 0 && db->mem == mem0, "a latched background error is returned at once and nothing is switched");
+    if (g_create_ok) {
+      /* the memtable was switched */
+      CHECK(g_create_calls == 1 && g_allocs == 1 && g_reuses == 0, "log switch: exactly one new log file, numbered by a fresh file number that is kept");
+      CHECK(db->imm == mem0 && *(int *)&db->has_imm == 1, "log switch: the full memtable becomes imm (has_imm published) - it is not dropped");
+      CHECK(db->mem == &g_new_mem_obj && g_mem_creates == 1 && g_mem_refs == 1, "log switch: a fresh referenced memtable takes the writes");
+      CHECK(db->logfile == &g_logfile && db->log == &g_logw && g_wcreate == 1 && db->logfile_number == next0, "log switch: writes go to the new log, logfile_number is its number");
+      CHECK(!had_log || g_wdestroy == 1, "log switch: the old writer is released");
+      CHECK(!had_file || (g_close_calls2 == 1 && g_fdestroy == 1), "log switch: the old log file is closed (flushing its buffer) and destroyed");
+      CHECK(!g_close_failed || (db->bg_error != LDB_OK && rc != LDB_OK), "a failed close of the old log (its buffered tail may be lost) latches bg_error and fails the write");
+    } else {
+      CHECK(db->mem == mem0 && db->logfile_number == lognum0 && g_wdestroy == 0 && g_close_calls2 == 0 && g_mem_creates == 0, "no switch: memtable and log untouched");
+      if (g_create_calls) CHECK(rc != LDB_OK && g_reuses == 1 && g_next_file == next0, "failed log creation: reported, the file number is given back, nothing switched");
+    }
+    if (rc == LDB_OK) {
+      CHECK(db->bg_error == LDB_OK, "OK only without background error");
+      CHECK(force && g_create_ok || g_mem_usage <= db->options.write_buffer_size || g_create_ok, "OK only if the current memtable has room or was just switched");
+    }
+    CHECK(I_DB_C(db) && I_DB_C0(db), "I_db(c) re-established: pending background work is scheduled");
+  }
+  CANARY();
+}
+
+/* ------------------------------------------------------------- harness */
 
 void h_write(void) {
   ldb_t *db = malloc(sizeof(ldb_t));
@@ -196,6 +319,7 @@ void h_write(void) {
   __CPROVER_assume(db->mem != NULL);
   __CPROVER_assume(g_versions.last_sequence < ((uint64_t)1 << 56) - ((uint64_t)1 << 42));
   g_hwm = g_versions.last_sequence;            /* everything published so far has been inserted */
+  __CPROVER_assume(I_DB_C(db) && I_DB_C0(db) && !SHUTTING_DOWN(db));   /* monitor invariant (c) holds when we get the mutex; close has not begun */
   g_held = 0; g_locks = 0; g_unlocks = 0; g_waits = 0;
   g_sig_a1 = g_sig_f1 = g_sig_f2 = g_sig_me = g_sig_other = 0;
   g_log_appends = g_log_failed = g_syncs = g_synced = g_sync_failed = g_inserts = 0; g_ins_batch = NULL;
@@ -211,8 +335,11 @@ void h_write(void) {
   g_f2.batch = nondet_int() ? &g_bf2 : NULL; g_f2.done = 0; g_f2.sync = nondet_int() ? 1 : 0; g_f2.next = NULL; g_f2.status = 0x7777;
   /* queue before the call: empty, or one writer (the current leader) ahead of us */
   g_a1.next = NULL; g_a1.done = 0;
-  if (ahead) { db->writers.head = &g_a1; db->writers.tail = &g_a1; db->writers.length = 1; }
-  else { db->writers.head = NULL; db->writers.tail = NULL; db->writers.length = 0; }
+  /* the g_nf writers that queue up behind us are linked behind our waiter in ldb_cond_init (see there); the
+     queue length counts them from the start (over-approximation: they may arrive at any time), the tail
+     pointer is only read by other threads' pushes, which are not modelled */
+  if (ahead) { db->writers.head = &g_a1; db->writers.tail = &g_a1; db->writers.length = 1 + g_nf; }
+  else { db->writers.head = NULL; db->writers.tail = NULL; db->writers.length = g_nf; }
   g_wopt.sync = nondet_int() ? 1 : 0;
   seq0 = g_versions.last_sequence;
 
